@@ -263,15 +263,15 @@ PROPS["C14"] = {
     "pkg": "racep", "race": True, "minimise": False, "one_per_process": True, "stall_s": 300,
     "env": {"GORACE": "halt_on_error=1 exitcode=66"},
     "legs": ["race:mem", "race:frag/mem", "race:mbapp/mem", "race:mux-string/mem", "race:askmux-string/mem", "race:p2pke/mem", "race:mbapp/p2pke/mem", "race:frag/p2pke/mem", "race:wl/mbapp/mem",
-             "race:map/frag/mem", "race:kad", "race:hubs", "race:channel",
+             "race:map/frag/mem", "race:kad", "race:hubs", "race:channel", "race:udp", "race:ssh", "race:quic/mem", "race:quic/udp",
              "own:frag/sim", "own:mbapp/sim", "own:mem", "own:mbapp/mem", "own:p2pke/sim", "own:mux-varint/mux-string/sim", "own:mbapp/p2pke/sim"],
-    "runs": {"quick": 320, "thorough": 20000}, "budget": {"quick": 420, "thorough": 700},
-    "rule": "legs race:<stack>: one run = one seeded workload in which free-running goroutines (8 procs, Go race detector on, real clock: mutexes held across blocking hand-overs would stall a fake clock) call Tell, Ask, Receive, ServeAsk, LookupPublicKey, PublicKey, LocalAddrs, MTU and Close (twice, while traffic flows) concurrently on every node of a stack over the real in-memory swarm; callbacks checksum their message on entry and exit and write to it; legs race:kad / race:hubs / race:channel do the same for the Kademlia cache and DHT node, the hubs and queue, and a pair of P2PKE channels across rekeys; "
+    "runs": {"quick": 384, "thorough": 20000}, "budget": {"quick": 420, "thorough": 700},
+    "rule": "legs race:<stack>: one run = one seeded workload in which free-running goroutines (8 procs, Go race detector on, real clock: mutexes held across blocking hand-overs would stall a fake clock) call Tell, Ask, Receive, ServeAsk, LookupPublicKey, PublicKey, LocalAddrs, MTU and Close (twice, while traffic flows) concurrently on every node of a stack over the real in-memory swarm (and of the UDP, SSH and QUIC swarms on loopback sockets / in-memory); callbacks checksum their message on entry and exit and write to it; legs race:kad / race:hubs / race:channel do the same for the Kademlia cache and DHT node, the hubs and queue, and a pair of P2PKE channels across rekeys; "
             "legs own:<stack>: the scheduled (replayable) C01 workload, keeping the buffer-ownership classes; non-trivial = something was delivered; distinct = distinct (stack, seed, deliveries) or scheduler decision traces",
     "components": {"real": ["every package of /repo (uninstrumented behaviour: all scheduler hooks are no-ops in the race legs)"], "stub": ["clock: real for race:<stack>, synctest fake clock for race:kad/hubs/channel and the own legs", "transport: the real in-memory swarm", "workload seeded; goroutine scheduling is NOT controlled in the race legs"], "tier": "race legs: not replayable exactly (seed + report); own legs: A"},
     "level_text": "the Go race detector (no false positives) over seeded high-contention workloads that use every API of the statement concurrently; plus payload checksums at callback entry and exit under both the real and the simulated scheduler",
     "level_note": "the serialising scheduler would hide every race from the detector, so the race legs deliberately run free; a report reproduces usually, not always, by re-running its seed; a race with harness frames only is reported as infrastructure error, never as a violation",
-    "assumptions": ["QUIC and SSH swarms are not exercised"],
+    "assumptions": ["a race whose two accesses are both in third-party code (quic-go, x/crypto) is not attributed to the library"],
 }
 
 TIERB_RULE = (" Tier B legs (own batch, one run per process, 16 quick / 300 thorough runs per leg; which legs: see coverage.legs): quic/mem = the QUIC swarm (real quic-go, TLS 1.3 with the node keys; "
